@@ -16,7 +16,8 @@ EXPLANATION = (
     'numpy_indexes (product of the dimensions = count), len_input_bytes is the same product; (4) numpy dtype table '
     'agrees in kind, width and signedness with each decoder; (5) the index X value / frame number come from the first '
     'channel at frame 0 and the recorded frame number; (6) array reuse only when the length matches and every element '
-    'is overwritten.')
+    'is overwritten.'
+    ' The full allocation is reached by every call that does not refuse its argument (no return before the loop), so it does not depend on an earlier partial allocation.')
 NOT_DECIDED = 'value equality over all files, commutation over all slices (follows from 1-3 only together with C07 decoders), history independence beyond purity of the selectors and full overwrite.'
 ASSUMPTIONS = ['numpy indexing and itertools.product semantics', 'FrameChannel.ident of RP66V1 channels is a str']
 TECHNIQUE = 'static analysis: sibling predicate normal forms, argument provenance, CFG, table agreement, purity analysis'
